@@ -81,7 +81,10 @@ pub fn check_code(c: u16) -> Vec<Finding> {
                 }
             }
             None => {
-                if t != TYPE::Unknown(c) {
+                // a code without a mnemonic in this harness' table: Unknown(c), or a mnemonic the
+                // library has grown for exactly this number (the round trip above pins the number);
+                // two codes sharing one variant would fail the round trip for one of them
+                if t != TYPE::Unknown(c) && u16::from(t) != c {
                     bad.push(("type-alias".into(), format!("unsupported code {} aliased to {:?}", c, t)));
                 }
             }
@@ -119,7 +122,9 @@ pub fn check_code(c: u16) -> Vec<Finding> {
             }
         }
         // QTYPE
-        let exp_qtype = table.iter().any(|e| e.1 == c) || (251..=255).contains(&c);
+        // supported = has a mnemonic in the table, or the library itself names it (TYPE::from gives
+        // something other than Unknown)
+        let exp_qtype = table.iter().any(|e| e.1 == c) || (251..=255).contains(&c) || TYPE::from(c) != TYPE::Unknown(c);
         match QTYPE::try_from(c) {
             Ok(q) => {
                 if !exp_qtype {
@@ -319,8 +324,9 @@ pub fn check_parsed_type(code: u16, class_raw: u16, body: &[u8]) -> (Vec<Finding
 }
 
 /// TYPE::Unknown(code) equals the record's type only when the code has no mnemonic at all
+/// (neither in this harness' table nor in the library)
 fn schema_less(code: u16) -> bool {
-    !iana().iter().any(|e| e.1 == code)
+    !iana().iter().any(|e| e.1 == code) && TYPE::from(code) == TYPE::Unknown(code)
 }
 
 pub fn run(ctx: &Ctx) {
